@@ -1,5 +1,5 @@
 --------------------------- MODULE MC_OutEvents ---------------------------
-(* All assignment histories up to length 5 over ids 1..4 (classes 1,1,2,3: two equal-    *)
+(* All assignment histories up to length 5 over ids 1..5 (classes 1,1,2,3,0: two equal-    *)
 (* but-not-identical objects), unfiltered on_output and on_every_output observers.       *)
 EXTENDS Integers, Sequences, TLC
 SRC == 800
@@ -7,13 +7,13 @@ TRIG == 810
 VARIABLES cur, log, kind, histOut, histEvery, n
 O == INSTANCE OutEvents
 UNDEF == O!UNDEF
-Cls == <<1, 1, 2, 3>>
+Cls == <<1, 1, 2, 3, 0>>                  \* id 5: a NaN (class 0: equal to nothing)
 OnOut   == <<[dest |-> 1, etype |-> "a", filters |-> <<>>], [dest |-> 2, etype |-> "b", filters |-> <<[k |-> "nfu"]>>]>>
 OnEvery == <<[dest |-> 3, etype |-> "c", filters |-> <<>>]>>
 vars == <<cur, log, kind, histOut, histEvery, n>>
 Init == cur = UNDEF /\ log = <<>> /\ kind \in {"s", "c"} /\ histOut = <<>> /\ histEvery = <<>> /\ n = 0
 Sel(s, d) == SelectSeq(s, LAMBDA x : x.dest = d)
-Assign == \E v \in 1..4 :
+Assign == \E v \in 1..5 :
     /\ n < 5 /\ n' = n + 1
     /\ IF kind = "s" THEN O!AssignS(Cls, OnOut, OnEvery, v) ELSE O!AssignC(Cls, OnOut, v)
     /\ histOut' = histOut \o Sel(log', 1)
